@@ -365,6 +365,15 @@ class Executor:
         if p[0] == "field":
             i, ty = p[1], p[2]
             if isinstance(v, VAgg):
+                if i >= len(v.fields) and "{closure@" in (v.path or ""):
+                    # rustc's MIR printer zips the captured *variables'* names with the capture operands, so a closure
+                    # that captures two fields of one variable loses its last operands in the dump: such a capture
+                    # is an unconstrained value of its type (over-approximation)
+                    while len(v.fields) <= i:
+                        v.fields.append(None)
+                    v.fields[i] = self.fresh(ty, self.fresh_name("capture%d" % i), st)
+                    self.stats.havoc.add("closure capture %d not printed in the MIR dump" % i)
+                    return v.fields[i]
                 if i >= len(v.fields):
                     raise PathEnd("field %d of %r" % (i, v))
                 return v.fields[i]
